@@ -158,6 +158,9 @@ func shrink(c *Ctx, j Job, key string) (*scn.Scenario, *Run, int) {
 	if _, custom := j.S.Rig["no_shrink"]; custom {
 		return cur, curRun, steps
 	}
+	if _, ok := j.S.Rig["histories"]; ok {
+		return shrinkHistories(cur, curRun, key, fires, steps)
+	}
 	for progress := true; progress && steps < 300; {
 		progress = false
 		for _, t := range transforms(cur) {
@@ -170,6 +173,62 @@ func shrink(c *Ctx, j Job, key string) (*scn.Scenario, *Run, int) {
 				cur, curRun, progress = t, r, true
 				break
 			}
+		}
+	}
+	return cur, curRun, steps
+}
+
+// shrinkHistories reduces a batch of histories to the single failing one and then removes
+// operations from it (delta debugging on the op list) while the same key keeps firing.
+func shrinkHistories(cur *scn.Scenario, curRun *Run, key string, fires func(*scn.Scenario) (*Run, bool), steps int) (*scn.Scenario, *Run, int) {
+	hs, _ := cur.Rig["histories"].([]interface{})
+	// which history fired?
+	idx := -1
+	for _, e := range curRun.Events {
+		if e.Ev == "viol" && e.Label == key {
+			idx = e.I
+			break
+		}
+	}
+	if idx >= 0 && idx < len(hs) && len(hs) > 1 {
+		t := cloneScn(cur)
+		t.Rig["histories"] = []interface{}{hs[idx]}
+		if r, ok := fires(t); ok {
+			cur, curRun = t, r
+		}
+		steps++
+	}
+	hs, _ = cur.Rig["histories"].([]interface{})
+	if len(hs) != 1 {
+		return cur, curRun, steps
+	}
+	opsOf := func(s *scn.Scenario) []interface{} {
+		h := s.Rig["histories"].([]interface{})[0].(map[string]interface{})
+		o, _ := h["ops"].([]interface{})
+		return o
+	}
+	withOps := func(s *scn.Scenario, ops []interface{}) *scn.Scenario {
+		t := cloneScn(s)
+		t.Rig["histories"].([]interface{})[0].(map[string]interface{})["ops"] = ops
+		return t
+	}
+	for chunk := len(opsOf(cur)) / 2; chunk >= 1 && steps < 300; {
+		ops := opsOf(cur)
+		removed := false
+		for start := 0; start+chunk <= len(ops) && steps < 300; start += chunk {
+			cand := append(append([]interface{}{}, ops[:start]...), ops[start+chunk:]...)
+			t := withOps(cur, cand)
+			r, ok := fires(t)
+			steps++
+			if ok {
+				cur, curRun, removed = t, r, true
+				break
+			}
+		}
+		if !removed {
+			chunk /= 2
+		} else if chunk > len(opsOf(cur)) {
+			chunk = len(opsOf(cur))
 		}
 	}
 	return cur, curRun, steps
